@@ -3,6 +3,7 @@ package props
 import (
 	"fmt"
 	"runtime"
+	"strings"
 	"testing"
 
 	gocvss20 "github.com/pandatix/go-cvss/20"
@@ -151,6 +152,13 @@ func checkAllocs(c AllocCase) error {
 	if bad := string(c.BadVec); bad != "" && !spec.Member(v, bad) && !api.parse(bad) {
 		if a := allocsAfter(func() { api.parse(bad) }, func() { api.parse(s) }); a > 1 {
 			return fmt.Errorf("v%s ParseVector(%q) performs %v allocations per call when each call follows the rejected ParseVector(%q); budget is at most 1", v.Name, s, a, bad)
+		}
+	}
+	// ... nor an oversized rejected input (a buffer that is "too large to keep" and therefore not returned)
+	huge := s + "/ZZ:" + strings.Repeat("N", 70000)
+	if !api.parse(huge) {
+		if a := allocsAfter(func() { api.parse(huge) }, func() { api.parse(s) }); a > 1 {
+			return fmt.Errorf("v%s ParseVector(%q) performs %v allocations per call when each call follows a rejected input of %d bytes; budget is at most 1", v.Name, s, a, len(huge))
 		}
 	}
 	api.reparse(s)
